@@ -167,9 +167,12 @@ fn run_inner(case: &Case, knobs: &Knobs, strat: &Strategy, inject: Option<(usize
 fn warm_up(searcher: &mut grep_searcher::Searcher, matcher: &grep_regex::RegexMatcher, case: &Case, warm: u64, scratch: Option<&Path>) {
     let mut rng = simcore::Rng::new(warm);
     let mut data = gen_text(&mut rng, case.cfg.term, 30);
-    if rng.chance(1, 3) {
+    match rng.below(4) {
         // make sure the previous haystack holds something that matches now
-        data.extend_from_slice(&case.data[..case.data.len().min(4096)]);
+        0 => data.extend_from_slice(&case.data[..case.data.len().min(4096)]),
+        // the same kind of bytes as the haystack to come (its marks, its NULs), cut short
+        1 => data = case.data[..case.data.len() - case.data.len().min(rng.below(8))].to_vec(),
+        _ => {}
     }
     let inject = match rng.below(3) {
         0 => Some((rng.below(6), Answer::Stop)),
@@ -187,8 +190,16 @@ fn warm_up(searcher: &mut grep_searcher::Searcher, matcher: &grep_regex::RegexMa
         }
         _ => {
             let mut h = History::plain(Style::gen(&mut rng), rng.next());
-            if rng.chance(1, 4) {
-                h.fault_at = Some((rng.below(4), ReadFault::Error));
+            match rng.below(6) {
+                0 | 1 => h.fault_at = Some((rng.below(4), ReadFault::Error)),
+                2 => h.fault_at = Some((rng.below(40), ReadFault::Error)),
+                3 => {
+                    // everything is delivered by the first read, the read that would report the
+                    // end of the input fails (a child that exits non-zero after its last byte)
+                    h.style = Style::Full;
+                    h.fault_at = Some((1, ReadFault::Error));
+                }
+                _ => {}
             }
             let mut rdr = SimReader::new(&data, &h, case.cfg.term.byte());
             let _ = searcher.search_reader(matcher, &mut rdr, &mut sink);
